@@ -216,3 +216,7 @@ def run(ck, prog, ctx):
     ck.rule("WRAPPER", "len / is_empty / contains / get / iter / push ... of a wrapper type delegate to the same-named method of ONE inner collection, un-negated (DESIGN 3.9)")
     from engines import check_wrappers
     check_wrappers(ck, "WRAPPER", prog, r"^src/set\.rs$", floor=3)
+    # the gene / OMIM / ORPHA variants of one operation: none does something its siblings do not
+    ck.rule("KSIB", "in a group of >= 3 kind variants of one operation, no member alone has an extra selecting / truncating / error-swallowing / text-changing step or calls a crate function no sibling calls")
+    from engines import check_kind_siblings
+    check_kind_siblings(ck, "KSIB", prog, r"^src/set\.rs$|^src/term/hpoterm\.rs$", floor=1)
